@@ -25,6 +25,11 @@ fn pick_val(rng: &mut Rng) -> i64 {
     }
 }
 
+fn pick_long_ttl(rng: &mut Rng) -> u64 {
+    // 100 years = 3_155_760_000 s
+    *rng.pick(&[u64::MAX, 6_311_520_000_000_000_000, 4_733_640_000_000_000_000, 3_155_760_000_000_000_001, 3_155_760_000_000_000_000, 3_155_759_999_999_999_999, 4_000_000_000_000_000_000])
+}
+
 fn pick_ttl(rng: &mut Rng) -> u64 {
     match rng.below(8) {
         0 => 0,
@@ -52,7 +57,7 @@ fn main() {
         let snap0 = st.snapshot();
         // abstract map oracle: key -> (value, expiry)
         let mut abs: HashMap<u64, (i64, i128)> = HashMap::new();
-        let nkeys = *rng.pick(&[1u64, 2, 3, 8, 18, 200]);
+        let nkeys = *rng.pick(&[1u64, 2, 3, 8, 19, 200]);
         let key_base = if rng.chance(1, 4) { 100 } else { 0 };
         // time base: around the store's first cleanup instant so that trigger boundaries are hit
         let wall = time_to_ns(std::time::SystemTime::now());
@@ -62,6 +67,10 @@ fn main() {
             2 => if cfg.kind() != "pro" { snap0[0] - 3 } else { wall },
             _ => wall + rng.range(0, 10_000_000_000) as i128,
         };
+        // "century" sequences: the whole time domain of the properties (1970..2100) with lifetimes above 100 years - a key written
+        // in the 1970s with 150..584 years to live is still there in 2099
+        let century = seq % 8 == 5;
+        if century { now = 1_000_000_000 + rng.range(0, 1_000_000_000) as i128; }
         let nops = rng.range(1, max_ops as i64) as usize;
         let expire_heavy = rng.chance(1, 5);
         let mut pending_ttls: Vec<i128> = Vec::new();
@@ -91,6 +100,7 @@ fn main() {
                 10 => now + rng.range(0, 1000) as i128,
                 _ => now + 1_000_000,
             };
+            if century && rng.chance(1, 3) { t = now + *rng.pick(&[3_155_760_000_000_000_000i128, 3_200_000_000_000_000_000, 1_000_000_000_000_000_000, 3_155_759_999_999_999_999]); }
             if disordered {
                 if rng.chance(1, 3) { t = now - rng.range(0, 3_000_000_000) as i128; }
             } else if t < now {
@@ -107,10 +117,10 @@ fn main() {
             let cur_abs = abs.get(&key).and_then(|(v, e)| if now < *e { Some(*v) } else { None });
             let op = match rng.below(10) {
                 0 | 1 => Op::Get(key, now),
-                2 | 3 | 4 | 5 => Op::SetNx(key, pick_val(&mut rng), if expire_heavy { 1 } else { pick_ttl(&mut rng) }, now),
+                2 | 3 | 4 | 5 => Op::SetNx(key, pick_val(&mut rng), if century { pick_long_ttl(&mut rng) } else if expire_heavy { 1 } else { pick_ttl(&mut rng) }, now),
                 _ => {
                     let old = if rng.chance(2, 3) { cur_abs.unwrap_or_else(|| pick_val(&mut rng)) } else { pick_val(&mut rng) };
-                    Op::Cas(key, old, pick_val(&mut rng), pick_ttl(&mut rng), now)
+                    Op::Cas(key, old, pick_val(&mut rng), if century && rng.chance(2, 3) { pick_long_ttl(&mut rng) } else { pick_ttl(&mut rng) }, now)
                 }
             };
             let op_json = match op {
